@@ -80,7 +80,8 @@ def file_pool(rng):
     return pool
 
 
-BYSTANDERS = {'g1.mos.xml': '<mos><mosID>M</mosID><ncsID>N</ncsID><messageID>99</messageID><roStoryDelete><roID>BYSTANDER</roID><storyID>A</storyID></roStoryDelete></mos>',
+BYSTANDERS = {'out.xml': '<stale>' + 'left over from an earlier, longer output ' * 2000 + '</stale>',
+              'g1.mos.xml': '<mos><mosID>M</mosID><ncsID>N</ncsID><messageID>99</messageID><roStoryDelete><roID>BYSTANDER</roID><storyID>A</storyID></roStoryDelete></mos>',
               'ha.mos.xml': 'bystander, not xml', 'iZZ.mos.xml': '<mos><heartbeat/></mos>', 'ro1.mos.xml': 'bystander', 'appX.mos.xml': 'bystander', 'delA.mos.xml': 'bystander'}
 
 
